@@ -152,7 +152,7 @@ pub fn gen_model(rng: &mut Rng, size: usize, with_range: bool) -> Value {
     if rng.chance(1, 2) { m["file"] = json!([*rng.pick(NAME_POOL)]); }
     if rng.chance(1, 3) { m["debug_id"] = json!([*rng.pick(UUIDS)]); }
     if nsrc > 0 && rng.chance(1, 2) {
-        m["contents"] = Value::Array((0..nsrc).map(|_| if rng.chance(1, 3) { json!([]) } else { json!([*rng.pick(NAME_POOL)]) }).collect());
+        m["contents"] = Value::Array((0..nsrc).map(|_| if rng.chance(1, 3) { json!([]) } else if rng.chance(1, 6) { json!([gen_content(rng)]) } else { json!([*rng.pick(NAME_POOL)]) }).collect());
         if rng.chance(1, 6) {
             // a large embedded source made of the junk-header start bytes: whatever the chunk size of a
             // buffered reader is, some chunk of the serialised form starts with one of them
